@@ -32,7 +32,7 @@ ASSUMPTIONS = [
     "watchdog aborts (a task blocked on a real lock held by a parked thread) are inconclusive, never violations",
     "context_behavior and template_cache_size are process-wide settings, fixed per case",
 ]
-BOUNDS = {"quick": {"hyp": 480, "single_pairs": 11, "double_pairs": 2}, "thorough": {"hyp": 40000, "single_pairs": 20, "double_pairs": 4}}
+BOUNDS = {"quick": {"hyp": 480, "single_pairs": 14, "double_pairs": 2}, "thorough": {"hyp": 40000, "single_pairs": 26, "double_pairs": 4}}
 CFG = {"provide": True, "inject": True, "errors": False, "isfilled": False, "max_nodes": 3, "max_comps": 2, "max_depth": 2, "provide_weight": 3, "inject_pct": 70, "ticks": True, "hooks": False, "elems": True, "idecho": True}
 
 CFG_ASSETS = {"assets": True, "errors": False, "isfilled": False, "max_nodes": 3, "max_comps": 3, "max_depth": 2, "elems": True}
@@ -72,6 +72,7 @@ def build_tasks(case):
     from django_components import Component, cached_template, registry
 
     tasks = []
+    built = {}
     for i, t in enumerate(case["tasks"]):
         kind = t["t"]
         if kind in ("render", "fail"):
@@ -90,11 +91,27 @@ def build_tasks(case):
                 return normalize_ids(out)  # ids kept (renamed by first appearance): a lost / foreign data-djc-id attribute is a difference, sorted(map(tuple, rec.injected))
 
             tasks.append(run)
+        elif kind == "dynexpr":
+            # both tasks render ONE cached Template whose component tag has a nested-template argument
+            if "vf_dx" not in registry.all():
+                registry.register("vf_dx", type("VfDx", (Component,), {"template": "[{{ val }}|{{ n }}]", "get_context_data": lambda self, val="", n=0: {"val": val, "n": n}}))
+
+            def run(x=t["x"]):
+                tpl = cached_template('{% component "vf_dx" val="{{ x }}!" n=x|length / %}')
+                return normalize_ids(tpl.render(Context({"x": x})))
+
+            tasks.append(run)
         elif kind == "deps":
             # render + dependency post-processing (render_dependencies), components with inline and Media assets
-            prog = prefix_program(t["program"], "t%d" % i)
-            rec = pg.Recorder(5000)
-            classes, src = pg.build(prog, rec, name_prefix="t%d" % i)
+            shared = t.get("shared")
+            if shared and ("deps", shared) in built:
+                prog, classes, src = built[("deps", shared)]  # the SAME classes in both tasks (first .media access races)
+            else:
+                prog = prefix_program(t["program"], shared or "t%d" % i)
+                rec = pg.Recorder(5000)
+                classes, src = pg.build(prog, rec, name_prefix=shared or "t%d" % i)
+                if shared:
+                    built[("deps", shared)] = (prog, classes, src)
             ctx = dict(prog["page"]["ctx"])
 
             def run(src=src, ctx=ctx, typ=t.get("type", "document")):
@@ -281,7 +298,9 @@ def judge(case, schedule, solos, points, col=None, label="hyp"):
     return fails, s
 
 
-def _points():
+def _points(case=None):
+    if case is not None and case.get("yield") == "all":
+        return sched.all_lines(env.SRC, case.get("yield_files"))
     return sched.yield_points(env.SRC)
 
 
@@ -309,7 +328,7 @@ def check_hyp(case, col=None):
 
 def check_single(case, col=None):
     """Exhaustive single pre-emption: for every yield point k of the baseline, switch to the other task at k."""
-    points = _points()
+    points = _points(case)
     solos = solo_results(case)
     _r, s0, _res, _l = run_case(case, {"kind": "preempt", "points": []}, points)
     K = s0.k
@@ -425,6 +444,34 @@ _ASSETS2 = {
     ],
     "page": {"ctx": {}, "tpl": [C("c2"), C("c1")]},
 }
+F = lambda name, c: {"t": "fill", "name": {"lit": name}, "c": c}  # noqa: E731
+S = lambda name, c: {"t": "slot", "name": name, "data": {}, "c": c}  # noqa: E731
+
+
+def _slots_prog(tag):
+    """Fills and slot defaults whose texts name the task, so that content rendered for the other task shows."""
+    return {
+        "comps": [{"name": "c0", "params": [], "data": [], "tpl": [T("<"), S("a", [T("DA" + tag)]), T("|"), S("b", [T("DB" + tag)]), T(">")]}],
+        "page": {
+            "ctx": {"g": tag},
+            "tpl": [
+                {"t": "comp", "name": "c0", "kwargs": {}, "only": False, "body": {"kind": "fills", "c": [F("a", [T("FA" + tag), {"t": "var", "n": "g"}])]}},
+                {"t": "comp", "name": "c0", "kwargs": {}, "only": False, "body": {"kind": "implicit", "c": [T("IMPL" + tag)]}},
+                C("c0"),
+            ],
+        },
+    }
+
+
+# a class hierarchy with inherited Media, used by BOTH tasks of a pair (first access of .media happens concurrently)
+_ASSETS_INH = {
+    "comps": [
+        A_("c0", [T("B")], js="/*js_i0*/", css="/*css_i0*/", media={"js": ["base.js"], "css": {"all": ["base.css"]}}),
+        A_("c1", [T("S"), C("c0")], js="/*js_i1*/", css=None, media={"js": ["sub.js"], "css": {"print": ["sub.css"]}}, base="c0"),
+        A_("c2", [T("L")], js=None, css="/*css_i2*/", media={"js": ["leaf.js"], "css": None}, base="c1"),
+    ],
+    "page": {"ctx": {}, "tpl": [C("c2"), C("c1")]},
+}
 DOUBLE_PAIRS = [
     {"tasks": [{"t": "fail", "program": _PROV2, "at": 3}, {"t": "render", "program": _PROV2}], "mode": "django", "cache_size": 2, "focus": ["provide.py"]},
     {"tasks": [{"t": "render", "program": _PROV2}, {"t": "fail", "program": _PROV2, "at": 2}], "mode": "isolated", "cache_size": 2, "focus": ["provide.py"]},
@@ -435,6 +482,10 @@ FIXED_PAIRS = [
     {"tasks": [{"t": "filecomp", "how": 0}, {"t": "filecomp", "how": 1}], "mode": "django", "cache_size": 2},
     {"tasks": [{"t": "deps", "program": _ASSETS1, "type": "document"}, {"t": "deps", "program": _ASSETS2, "type": "document"}], "mode": "django", "cache_size": 2},
     {"tasks": [{"t": "deps", "program": _ASSETS2, "type": "fragment"}, {"t": "deps", "program": _ASSETS1, "type": "document"}], "mode": "isolated", "cache_size": 2},
+    # pre-emption before EVERY executed line of the named library files ("yield": "all") for three small pairs
+    {"tasks": [{"t": "render", "program": _slots_prog("1")}, {"t": "render", "program": _slots_prog("2")}], "mode": "django", "cache_size": 2, "yield": "all", "yield_files": ["slots.py", "template.py"]},
+    {"tasks": [{"t": "deps", "program": _ASSETS_INH, "shared": "sh", "type": "document"}, {"t": "deps", "program": _ASSETS_INH, "shared": "sh", "type": "document"}], "mode": "django", "cache_size": 2, "yield": "all", "yield_files": ["component_media.py"]},
+    {"tasks": [{"t": "dynexpr", "x": "Aa"}, {"t": "dynexpr", "x": "B"}], "mode": "django", "cache_size": 2, "yield": "all", "yield_files": ["util/tag_parser.py", "expression.py", "util/template_tag.py"]},
     {"tasks": [{"t": "render", "program": _ELEM}, {"t": "render", "program": _ELEM}], "mode": "django", "cache_size": 2},
     {"tasks": [{"t": "render", "program": _ELEM}, {"t": "fail", "program": _ELEM, "at": 3}], "mode": "isolated", "cache_size": 2},
     {"tasks": [{"t": "compile", "srcs": [0, 0, 0, 0]}, {"t": "compile", "srcs": [1, 2, 1, 3]}], "mode": "django", "cache_size": 1},
@@ -452,6 +503,10 @@ FIXED_PAIRS = [
     {"tasks": [{"t": "render", "program": _PROV}, {"t": "media", "shape": 2}], "mode": "django", "cache_size": 2},
     {"tasks": [{"t": "fail", "program": _PROV, "at": 2}, {"t": "compile", "srcs": [0, 1, 0, 2]}], "mode": "isolated", "cache_size": 1},
     {"tasks": [{"t": "render", "program": _PROV}, {"t": "render", "program": _PROV}], "mode": "isolated", "cache_size": 1},
+    # thorough tier only: the three small pairs again with a pre-emption before every executed line of EVERY library file
+    {"tasks": [{"t": "render", "program": _slots_prog("1")}, {"t": "render", "program": _slots_prog("2")}], "mode": "isolated", "cache_size": 2, "yield": "all"},
+    {"tasks": [{"t": "deps", "program": _ASSETS_INH, "shared": "sh", "type": "document"}, {"t": "deps", "program": _ASSETS_INH, "shared": "sh", "type": "fragment"}], "mode": "django", "cache_size": 2, "yield": "all"},
+    {"tasks": [{"t": "dynexpr", "x": "Aa"}, {"t": "dynexpr", "x": "B"}], "mode": "django", "cache_size": 1, "yield": "all"},
 ]
 
 
@@ -459,9 +514,10 @@ def plan(tier, seed, scale=1.0):
     b = BOUNDS[tier]
     specs = []
     for pi in range(b["single_pairs"]):
-        # split the k range of each pair over 4 shards
-        for part in range(4):
-            specs.append({"kind": "single", "pair": pi, "part": part, "parts": 4})
+        # split the k range of each pair over 4 shards (16 when every line is a yield point)
+        parts = 16 if FIXED_PAIRS[pi].get("yield") == "all" else 4
+        for part in range(parts):
+            specs.append({"kind": "single", "pair": pi, "part": part, "parts": parts})
     for pi in range(b.get("double_pairs", 2)):
         for part in range(4):
             specs.append({"kind": "double", "pair": pi, "part": part, "parts": 4})
@@ -476,7 +532,7 @@ def run_shard(spec):
     col = Collector()
     if spec["kind"] == "single":
         case = dict(FIXED_PAIRS[spec["pair"]], kind="single")
-        points = _points()
+        points = _points(case)
         _r, s0, _res, _l = run_case(case, {"kind": "preempt", "points": []}, points)
         K = s0.k
         per = (K + spec["parts"] - 1) // spec["parts"]
